@@ -77,6 +77,11 @@ class Anchors:
         if not m:
             return None
         ty = m.group(1)
+        for _ in range(4):
+            al = self.f.types.get(ty)  # `type Parsed = (RunOptions, Exp);`
+            if al is None or al.get("generics"):
+                break
+            ty = norm_ty(al.get("ty") or "")
         if ty.startswith("(") and ty.endswith(")"):
             parts = F.split_generics(ty[1:-1])
             fields = [(i, t.strip()) for i, t in enumerate(parts)]
